@@ -883,9 +883,21 @@ func sqlOf(f *fn, e ast.Expr) (rw, prefix string) {
 			rw = "?"
 		}
 	}
-	prefix = normSQL(c[0])
-	if len(prefix) > 40 {
-		prefix = prefix[:40]
+	// every distinct candidate text (a statement chosen by a condition has several), in source order
+	seen := map[string]bool{}
+	for _, s := range c {
+		p := normSQL(s)
+		if len(p) > 40 {
+			p = p[:40]
+		}
+		if seen[p] {
+			continue
+		}
+		seen[p] = true
+		if prefix != "" {
+			prefix += " || "
+		}
+		prefix += p
 	}
 	return rw, prefix
 }
